@@ -339,6 +339,12 @@ class BaseData:
                 if normalize_name(renamed_column["from"]) == normalize_name(
                     column["name"]
                 ):
+                    # the primary key follows the renamed column (in place: the list is already
+                    # part of the emitted table)
+                    self.primary_key[:] = [
+                        renamed_column["to"] if key == column["name"] else key
+                        for key in self.primary_key
+                    ]
                     column["name"] = renamed_column["to"]
                     break
 
